@@ -250,7 +250,7 @@ func runC12(c *Ctx, r *Report, tier string) {
 	sites, _ := c.callersOf(wo)
 	okF := len(sites) > 0
 	for _, s := range sites {
-		if s.Fn != wg {
+		if !c.actsFor(s.Fn, wg) {
 			okF = false
 		}
 	}
